@@ -41,6 +41,8 @@ class Run:
         self.known = []           # strings already printed
         self.notes = []
         self.cov = {}
+        self.wit = {}
+        self.kf = []
         import shutil
         shutil.rmtree(os.path.join(P.VERIF, "replays", pid), ignore_errors=True)
 
@@ -102,10 +104,11 @@ class Run:
                     plan.append([gx, ii, oi])
             return v.run(inputs, options, plan, timeout_ms=timeout_ms)
         obs = P.parallel(run, variants)
+        self.obs = obs
         gp = os.path.join(P.workdir(), "groups.ndjson")
         dump_groups(groups, gp)
         tcase = dict(inputs=inputs, options=options, lower=lower or [[0, 0]], uclass=uclass or [[0]],
-                     cmp=dict(dict(store=True, errs=True), **(cmp or {})),
+                     cmp=dict(dict(store=True, errs=True, ctx=False), **(cmp or {})),
                      kf=getattr(self, "kf", []) or ["-"], strict=sorted(wit) or [0])
         div, tot = P.validate_t1(gp, tcase, obs, shards=shards)
         # witnesses of known findings: a divergence with the finding's symptom re-confirms it
@@ -161,3 +164,37 @@ class Run:
                 seen.add(v["replay"])
                 print("VIOLATION property=%s replay=%s %s" % (self.pid, v["replay"], v["what"]))
         return 1 if self.violations else 0
+
+
+def load_obs(path):
+    out = {}
+    with open(path) as f:
+        for ln in f:
+            o = json.loads(ln)
+            out[(o["gi"], o["ii"], o["oi"])] = o
+    return out
+
+
+def pairwise(run, pairs, fields=("status", "ok", "end", "val", "errs", "nomatch", "escaped", "store", "g"), optmap=None, only=None):
+    """real-vs-real: for each (variant index a, variant index b[, option map]) the same case must give equal observations.
+    Returns divergence records shaped like T1's."""
+    div, n = [], 0
+    cache = {}
+    for a, b in pairs:
+        for x in (a, b):
+            if x not in cache:
+                cache[x] = load_obs(run.obs[x])
+        oa, ob = cache[a], cache[b]
+        for key, o1 in oa.items():
+            k2 = key if optmap is None else (key[0], key[1], optmap.get(key[2]))
+            if k2[2] is None or k2 not in ob:
+                continue
+            if only and not only(o1):
+                continue
+            o2 = ob[k2]
+            n += 1
+            for fld in fields:
+                if o1.get(fld) != o2.get(fld):
+                    div.append(dict(k=o1["k"], vi=run.variants[b].vi, gi=key[0], ii=key[1], oi=k2[2], df="pair-" + fld, at=run.variants[a].vi, haz=[]))
+                    break
+    return div, n
